@@ -2,7 +2,11 @@
    Every theorem quantifies over an ARBITRARY signature relation sv (the ECDSA layer is C13).
    Only statements closed by [exact lemma], non-vacuity / refutation examples, and Print Assumptions. *)
 From Coq Require Import List Bool Arith ZArith.
-From Verif Require Import Model.VerifyInput Model.SignPlace Proofs.VerifyInput Proofs.SignPlace.
+From Coq.Strings Require Import Byte.
+From Verif Require Import Lib.Bytes Model.Wire Model.TxCodec Model.Sighash Proofs.Sighash Proofs.SighashEq
+  Proofs.SighashCommit Crypto.Sha256 Crypto.Ripemd160 Crypto.HashLemmas.
+From Verif Require Import Model.VerifyInput Model.SignPlace Model.SignSeq Proofs.VerifyInput Proofs.SignPlace
+  Proofs.SignPlaceSeq Proofs.SignPlaceTx Proofs.TamperDigest Proofs.TamperDigestWitness.
 Import ListNotations.
 
 (* --- soundness: True  =>  m signatures valid for m distinct key positions, order preserved
@@ -138,6 +142,293 @@ Example resign_keeps_stale_refuted :
      ObsVerify false [Some false] [[[false; false; false]; [false; true; false]]]].
 Proof. vm_compute. reflexivity. Qed.
 
+(* ====================================================================================================
+   sign_then_verify for ARBITRARY histories of Transaction.sign / Input.verify calls on one input
+   (Model/SignSeq.v: lib_icalls folds the extracted lib_sign_input / lib_verify_input_run over the calls;
+   spec_icalls collects the keys named in the calls that did not raise; signed_listed = the listed ones).
+   Calls may name any subsets of signers in any order, repeated signers, foreign keys (skipped, or the call raises
+   with fail_on_unknown_key and changes nothing), with and without replace_signatures.
+   Guards = exactly the two recorded classes:
+     resign_free_all   excludes resign_keeps_stale (a replace_signatures call that names an already-signed listed
+                       key while a key slot stays free);
+     dup_point_free    excludes dup_point_keys (needed only when a verification happens between sign() calls).
+   ==================================================================================================== *)
+
+(* the statement recorded in Model/SignPlace.v (calls without replace_signatures; its second premise on sv is not
+   even needed) *)
+Theorem sign_then_verify : sign_then_verify_statement.
+Proof. exact sign_then_verify_thm. Qed.
+
+(* the signature list after the history is EXACTLY the own signatures of the listed keys that signed, in key order *)
+Theorem sign_history_exact : forall (B : Type) (sv : B -> Z -> bool) (mk : Z -> B),
+  (forall k, sv (mk k) k = true) ->
+  forall pubs, NoDup pubs -> forall cs acc,
+    resign_free_all pubs acc cs = true ->
+    only_signs cs = true \/ dup_point_free sv mk pubs ->
+    lib_icalls sv mk pubs (map (own_sig mk) (signed_listed pubs acc)) cs
+    = map (own_sig mk) (signed_listed pubs (spec_icalls pubs acc cs)).
+Proof. exact @icalls_exact. Qed.
+
+(* ... and the verdict for EVERY threshold m (m = 0 included: an input without signatures never verifies) *)
+Theorem sign_history_then_verify : forall (B : Type) (sv : B -> Z -> bool) (mk : Z -> B),
+  (forall k, sv (mk k) k = true) ->
+  forall pubs cs m, NoDup pubs ->
+    resign_free_all pubs [] cs = true ->
+    only_signs cs = true \/ dup_point_free sv mk pubs ->
+    fst (lib_verify_input_run sv pubs (lib_icalls sv mk pubs [] cs) m)
+    = Nat.leb m (length (signed_listed pubs (spec_icalls pubs [] cs)))
+      && Nat.leb 1 (length (signed_listed pubs (spec_icalls pubs [] cs))).
+Proof. exact @sign_seq_then_verify_thm. Qed.
+
+Theorem sign_history_then_verify_m : forall (B : Type) (sv : B -> Z -> bool) (mk : Z -> B),
+  (forall k, sv (mk k) k = true) ->
+  forall pubs cs m, NoDup pubs -> 1 <= m ->
+    resign_free_all pubs [] cs = true ->
+    only_signs cs = true \/ dup_point_free sv mk pubs ->
+    fst (lib_verify_input_run sv pubs (lib_icalls sv mk pubs [] cs) m)
+    = Nat.leb m (length (signed_listed pubs (spec_icalls pubs [] cs))).
+Proof. exact @sign_seq_then_verify_m_thm. Qed.
+
+(* non-vacuity: 2-of-3 over keys 0, 2, 4 (three different points).  Calls: keys 4 and the foreign key 14 (skipped);
+   a verification (False, re-tags); keys 4 (repeated signer, skipped) and 0; replace_signatures by key 2 (not yet
+   signed: admitted by the guard, completes the list); the foreign key 14 with fail_on_unknown_key (raises).
+   All premises hold; the input verifies for m = 2 and m = 3, not for m = 4 *)
+Example sign_history_instance :
+  let pubs := [0; 2; 4]%Z in
+  let cs3 := [CSign false false [4; 14]%Z; CVerify 2; CSign false true [4; 0]%Z] in
+  let cs := cs3 ++ [CSign true true [2]%Z; CSign false true [14]%Z] in
+  (forall k, c_sv 0 (c_mk 0 k) k = true) /\ NoDup pubs /\ dup_point_free (c_sv 0) (c_mk 0) pubs /\
+  resign_free_all pubs [] cs = true /\
+  signed_listed pubs (spec_icalls pubs [] cs3) = [0; 4]%Z /\
+  fst (lib_verify_input_run (c_sv 0) pubs (lib_icalls (c_sv 0) (c_mk 0) pubs [] cs3) 2) = true /\
+  fst (lib_verify_input_run (c_sv 0) pubs (lib_icalls (c_sv 0) (c_mk 0) pubs [] cs3) 3) = false /\
+  signed_listed pubs (spec_icalls pubs [] cs) = [0; 2; 4]%Z /\
+  fst (lib_verify_input_run (c_sv 0) pubs (lib_icalls (c_sv 0) (c_mk 0) pubs [] cs) 3) = true /\
+  fst (lib_verify_input_run (c_sv 0) pubs (lib_icalls (c_sv 0) (c_mk 0) pubs [] cs) 4) = false.
+Proof.
+  split; [intros k; unfold c_sv, c_mk; rewrite Z.eqb_refl; reflexivity|].
+  split; [repeat constructor; simpl; intuition discriminate|].
+  split.
+  - intros k k' Hk Hk' E. simpl in Hk, Hk'.
+    destruct Hk as [<-|[<-|[<-|[]]]]; destruct Hk' as [<-|[<-|[<-|[]]]]; try reflexivity; vm_compute in E; discriminate.
+  - vm_compute. repeat split.
+Qed.
+
+(* the guard resign_free_all is needed even when NO committed field changed (second half of the recorded class
+   resign_keeps_stale): complete 2-of-3 by keys 2, 4, then sign(keys 2, 4, replace_signatures=True): the old
+   signature of key 2 lands in the slot of key 0, [sig2, sig2, sig4] does not verify although two keys signed *)
+Example resign_same_digest_refuted :
+  let pubs := [0; 2; 4]%Z in
+  let cs := [CSign false true [2; 4]%Z; CSign true true [2; 4]%Z] in
+  resign_free_all pubs [] cs = false /\
+  length (signed_listed pubs (spec_icalls pubs [] cs)) = 2 /\
+  map (@body cbody) (lib_icalls (c_sv 0) (c_mk 0) pubs [] cs) = [c_mk 0 2; c_mk 0 2; c_mk 0 4]%Z /\
+  fst (lib_verify_input_run (c_sv 0) pubs (lib_icalls (c_sv 0) (c_mk 0) pubs [] cs) 2) = false.
+Proof. vm_compute. repeat split. Qed.
+
+(* the guard dup_point_free is needed as soon as a verification happens between the calls (recorded class
+   dup_point_keys in the vocabulary of this theorem): keys 0 / 1 are two encodings of one point *)
+Example dup_point_history_refuted :
+  let pubs := [0; 1]%Z in
+  let cs := [CSign false true [1]%Z; CVerify 2; CSign false true [0]%Z] in
+  c_sv 0 (c_mk 0 1) 0 = true /\ resign_free_all pubs [] cs = true /\
+  length (signed_listed pubs (spec_icalls pubs [] cs)) = 2 /\
+  fst (lib_verify_input_run (c_sv 0) pubs (lib_icalls (c_sv 0) (c_mk 0) pubs [] cs) 2) = false /\
+  fst (lib_verify_input_run (c_sv 0) pubs
+         (lib_icalls (c_sv 0) (c_mk 0) pubs [] [CSign false true [1]%Z; CSign false true [0]%Z]) 2) = true.
+Proof. vm_compute. repeat split. Qed.
+
+(* --- the same for whole transactions (Model/SignSeq.v: lib_tcalls folds lib_sign_tx / lib_tx_verify_run, the
+       functions the correspondence driver runs; sign() over all inputs stops at the first input for which it raises;
+       verify() stops at the first failing input).  tx_signed_by: every input carries exactly the own signatures of
+       its listed keys named so far, in key order; tx_verdict: every digest computable and every input signed by at
+       least m (and at least one) of its listed keys --- *)
+Theorem tx_history_exact : forall (B : Type) (svi : nat -> B -> Z -> bool) (mki : nat -> Z -> B),
+  (forall i k, svi i (mki i k) k = true) ->
+  forall sh, Forall (fun s => NoDup (si_keys s)) sh -> forall cs accs ins,
+    tx_signed_by mki 0 sh accs ins ->
+    tx_resign_free_all (map (@si_keys B) sh) accs cs = true ->
+    tx_only_signs cs = true \/ tx_dup_point_free svi mki 0 sh ->
+    tx_signed_by mki 0 sh (spec_tcalls (map (@si_keys B) sh) accs cs) (lib_tcalls svi mki ins cs).
+Proof. exact @tcalls_inv. Qed.
+
+Theorem tx_history_then_verify : forall (B : Type) (svi : nat -> B -> Z -> bool) (mki : nat -> Z -> B),
+  (forall i k, svi i (mki i k) k = true) ->
+  forall sh cs,
+    Forall (fun s => NoDup (si_keys s)) sh -> Forall (fun s => si_sigs s = []) sh ->
+    tx_resign_free_all (map (@si_keys B) sh) (map (fun _ => []) sh) cs = true ->
+    tx_only_signs cs = true \/ tx_dup_point_free svi mki 0 sh ->
+    fst (lib_tx_verify_run svi (lib_tcalls svi mki sh cs))
+    = tx_verdict sh (spec_tcalls (map (@si_keys B) sh) (map (fun _ => []) sh) cs).
+Proof. exact @tx_history_then_verify_thm. Qed.
+
+(* the driver machine's OSign / OVerify steps are these calls, under the digests (epochs) of its state *)
+Theorem machine_sign_is_tcall : forall st target r f signers,
+  cs_ins (fst (run_op st (OSign target r f signers)))
+  = lib_tcall (fun i => c_sv (epoch_at (cs_epochs st) i)) (fun i => c_mk (epoch_at (cs_epochs st) i))
+              (cs_ins st) (TSign target r f signers).
+Proof. exact run_op_sign_is_tcall. Qed.
+
+Theorem machine_verify_is_tcall : forall st,
+  cs_ins (fst (run_op st OVerify))
+  = lib_tcall (fun i => c_sv (epoch_at (cs_epochs st) i)) (fun i => c_mk (epoch_at (cs_epochs st) i))
+              (cs_ins st) TVerify /\
+  (exists v m, snd (run_op st OVerify)
+     = ObsVerify (fst (lib_tx_verify_run (fun i => c_sv (epoch_at (cs_epochs st) i)) (cs_ins st))) v m).
+Proof. exact run_op_verify_is_tcall. Qed.
+
+(* non-vacuity: input 0 = 2-of-3 over keys 0, 2, 4; input 1 = single key 6.  sign(keys 4, 6) over all inputs;
+   verify (False); sign(key 0) on input 0; sign(key 2, fail_on_unknown_key) over all inputs: signs input 0, raises at
+   input 1.  All premises hold; the transaction verifies; with the threshold of input 0 raised to 4 it does not *)
+Example tx_history_instance :
+  let svi := fun _ : nat => c_sv 0 in
+  let mki := fun _ : nat => c_mk 0 in
+  let sh := [init_input false [0; 2; 4]%Z 2; init_input true [6]%Z 1] in
+  let sh4 := [init_input false [0; 2; 4]%Z 4; init_input true [6]%Z 1] in
+  let cs := [TSign None false false [4; 6]%Z; TVerify; TSign (Some 0) false true [0]%Z; TSign None false true [2]%Z] in
+  (forall i k, svi i (mki i k) k = true) /\
+  Forall (fun s => NoDup (si_keys s)) sh /\ Forall (fun s => si_sigs s = []) sh /\
+  tx_dup_point_free svi mki 0 sh /\
+  tx_resign_free_all (map (@si_keys cbody) sh) (map (fun _ => []) sh) cs = true /\
+  spec_tcalls (map (@si_keys cbody) sh) (map (fun _ => []) sh) cs = [[2; 0; 4; 6]; [4; 6]]%Z /\
+  fst (lib_tx_verify_run svi (lib_tcalls svi mki sh [TSign None false false [4; 6]%Z])) = false /\
+  fst (lib_tx_verify_run svi (lib_tcalls svi mki sh cs)) = true /\
+  fst (lib_tx_verify_run svi (lib_tcalls svi mki sh4 cs)) = false.
+Proof.
+  split; [intros i k; unfold c_sv, c_mk; rewrite Z.eqb_refl; reflexivity|].
+  split; [repeat constructor; simpl; intuition discriminate|].
+  split; [repeat constructor|].
+  split.
+  - simpl. split; [|split; [|exact I]].
+    + intros k k' Hk Hk' E. simpl in Hk, Hk'.
+      destruct Hk as [<-|[<-|[<-|[]]]]; destruct Hk' as [<-|[<-|[<-|[]]]]; try reflexivity; vm_compute in E; discriminate.
+    + intros k k' Hk Hk' E. simpl in Hk, Hk'. destruct Hk as [<-|[]]; destruct Hk' as [<-|[]]. reflexivity.
+  - vm_compute. repeat split.
+Qed.
+
+(* ====================================================================================================
+   tamper_changes_digest (Proofs/TamperDigest.v, on C01's preimage model)
+   ==================================================================================================== *)
+
+(* a change of anything input i's digest commits to — version, locktime, an outpoint, a sequence, an output amount
+   or script, the input's own script code, for BIP143 inputs the amount being spent — changes the consensus
+   preimage of input i, or the proof exhibits a collision of H (nothing is assumed about H but its output length) *)
+Theorem tamper_changes_preimage : forall (H H160 : bytes -> bytes),
+  (forall b, length (H b) = 32%nat) -> (forall b, length (H160 b) = 20%nat) ->
+  forall t t' i ht x x' p p',
+  wf_stx t -> wf_stx t' ->
+  nth_error (st_ins t) i = Some x -> nth_error (st_ins t') i = Some x' ->
+  k_segwit (si_kind x) = k_segwit (si_kind x') ->
+  (0 <= ht < 2 ^ 32)%Z -> legacy_all_like ht = true ->
+  committed_differs H160 t t' x x' ->
+  spec_preimage H H160 t i ht = Some p -> spec_preimage H H160 t' i ht = Some p' ->
+  p <> p' \/ collision H.
+Proof. exact tamper_changes_preimage_thm. Qed.
+
+(* ... and so does the digest Transaction.sign / Transaction.verify compute for input i *)
+Theorem tamper_changes_digest : forall (H H160 : bytes -> bytes),
+  (forall b, length (H b) = 32%nat) -> (forall b, length (H160 b) = 20%nat) ->
+  forall t t' i ht x x' d d',
+  wf_stx t -> wf_stx t' ->
+  nth_error (st_ins t) i = Some x -> nth_error (st_ins t') i = Some x' ->
+  k_segwit (si_kind x) = k_segwit (si_kind x') ->
+  (k_segwit (si_kind x) = true -> st_segwit t = true /\ st_segwit t' = true) ->
+  (0 <= ht < 2 ^ 32)%Z -> legacy_all_like ht = true ->
+  committed_differs H160 t t' x x' ->
+  lib_digest H H160 t i ht = Some d -> lib_digest H H160 t' i ht = Some d' ->
+  d <> d' \/ collision H.
+Proof. exact tamper_changes_digest_thm. Qed.
+
+(* signature relation indexed by the digest.  Premise (unforgeability, NOT proved here): the signatures marked
+   [stale] were made for digest d and are valid for no listed key under any other digest.  Then under d' <> d the
+   input verifies only if at least m signatures that are not of this kind are present *)
+Theorem stale_signatures_fail : forall (D sigT keyT : Type) (sv : D -> sigT -> keyT -> bool)
+  d d' keys sigs m (stale : sigT -> bool),
+  d' <> d ->
+  (forall s, In s sigs -> stale s = true -> bound_to sv d keys s) ->
+  length (filter (fun s => negb (stale s)) sigs) < m ->
+  lib_verify_input (sv d') false keys sigs m = false.
+Proof. exact @stale_signatures_fail_thm. Qed.
+
+Theorem tx_input_fails : forall (sigT keyT : Type) (svi : nat -> sigT -> keyT -> bool) ins i v,
+  nth_error ins i = Some v -> vi_coinbase v = false ->
+  lib_verify_input (svi i) false (vi_keys v) (vi_sigs v) (vi_m v) = false ->
+  lib_tx_verify svi ins = false.
+Proof. exact @tx_input_fails_thm. Qed.
+
+(* both parts: after a change of a committed field the input carrying fewer than m signatures other than those
+   made for the old digest does not verify (or H collides) *)
+Theorem tamper_detected : forall (H H160 : bytes -> bytes),
+  (forall b, length (H b) = 32%nat) -> (forall b, length (H160 b) = 20%nat) ->
+  forall (sigT keyT : Type) (sv : bytes -> sigT -> keyT -> bool)
+  t t' i ht x x' d d' keys sigs m (stale : sigT -> bool),
+  wf_stx t -> wf_stx t' ->
+  nth_error (st_ins t) i = Some x -> nth_error (st_ins t') i = Some x' ->
+  k_segwit (si_kind x) = k_segwit (si_kind x') ->
+  (k_segwit (si_kind x) = true -> st_segwit t = true /\ st_segwit t' = true) ->
+  (0 <= ht < 2 ^ 32)%Z -> legacy_all_like ht = true ->
+  committed_differs H160 t t' x x' ->
+  lib_digest H H160 t i ht = Some d -> lib_digest H H160 t' i ht = Some d' ->
+  (forall s, In s sigs -> stale s = true -> bound_to sv d keys s) ->
+  length (filter (fun s => negb (stale s)) sigs) < m ->
+  lib_verify_input (sv d') false keys sigs m = false \/ collision H.
+Proof. exact tamper_detected_thm. Qed.
+
+(* ... and Transaction.verify of the tampered transaction, which checks input i under the new digest d', is False *)
+Theorem tamper_detected_tx : forall (H H160 : bytes -> bytes),
+  (forall b, length (H b) = 32%nat) -> (forall b, length (H160 b) = 20%nat) ->
+  forall (sigT keyT : Type) (sv : bytes -> sigT -> keyT -> bool)
+  t t' i ht x x' d d' (svi : nat -> sigT -> keyT -> bool) ins v (stale : sigT -> bool),
+  wf_stx t -> wf_stx t' ->
+  nth_error (st_ins t) i = Some x -> nth_error (st_ins t') i = Some x' ->
+  k_segwit (si_kind x) = k_segwit (si_kind x') ->
+  (k_segwit (si_kind x) = true -> st_segwit t = true /\ st_segwit t' = true) ->
+  (0 <= ht < 2 ^ 32)%Z -> legacy_all_like ht = true ->
+  committed_differs H160 t t' x x' ->
+  lib_digest H H160 t i ht = Some d -> lib_digest H H160 t' i ht = Some d' ->
+  nth_error ins i = Some v -> vi_coinbase v = false -> svi i = sv d' ->
+  (forall s, In s (vi_sigs v) -> stale s = true -> bound_to sv d (vi_keys v) s) ->
+  length (filter (fun s => negb (stale s)) (vi_sigs v)) < vi_m v ->
+  lib_tx_verify svi ins = false \/ collision H.
+Proof. exact tamper_detected_tx_thm. Qed.
+
+(* non-vacuity with the executable SHA256d / HASH160 on C01's example transaction (input 0 native P2WPKH, input 1
+   2-of-3 P2SH multisig): locktime + 1, first output amount + 1, amount spent by input 0 + 1.  Each change is in the
+   domain, is a committed difference for input 0 and changes its digest; the last one is NOT committed by the legacy
+   input 1, whose digest stays the same (the BIP143-only clause of committed_differs is sharp) *)
+Example tamper_instance :
+  let x0 := ex_in0 0 5000000000 in
+  wf_stx ex_tx /\ wf_stx ex_tx_lock /\ wf_stx ex_tx_amount /\ wf_stx ex_tx_value /\
+  committed_differs hash160 ex_tx ex_tx_lock x0 x0 /\
+  committed_differs hash160 ex_tx ex_tx_amount x0 x0 /\
+  committed_differs hash160 ex_tx ex_tx_value x0 (ex_in0 0 5000000001) /\
+  lib_digest sha256d hash160 ex_tx 0 1 <> None /\
+  opt_eqb (lib_digest sha256d hash160 ex_tx 0 1) (lib_digest sha256d hash160 ex_tx_lock 0 1) = false /\
+  opt_eqb (lib_digest sha256d hash160 ex_tx 0 1) (lib_digest sha256d hash160 ex_tx_amount 0 1) = false /\
+  opt_eqb (lib_digest sha256d hash160 ex_tx 0 1) (lib_digest sha256d hash160 ex_tx_value 0 1) = false /\
+  opt_eqb (lib_digest sha256d hash160 ex_tx 1 1) (lib_digest sha256d hash160 ex_tx_lock 1 1) = false /\
+  opt_eqb (lib_digest sha256d hash160 ex_tx 1 1) (lib_digest sha256d hash160 ex_tx_value 1 1) = true.
+Proof. exact tamper_instance_proof. Qed.
+
+(* the premise of stale_signatures_fail is satisfiable and the conclusion is not trivial: in the concrete relation
+   of the correspondence (a signature carries the digest id it was made for) two signatures made for digest 0 and
+   one fresh signature do not verify a 2-of-3 under digest 1; two fresh ones (and a stale one behind them) do *)
+Example stale_signatures_instance :
+  let sv := fun (e : Z) (b : cbody) (k : Z) => c_sv e b k in
+  let keys := [0; 2; 4]%Z in
+  let stale := fun b : cbody => let '(_, e, _) := b in Z.eqb e 0 in
+  (forall s, stale s = true -> bound_to sv 0%Z keys s) /\
+  lib_verify_input (sv 1%Z) false keys [c_mk 0 0; c_mk 0 2; c_mk 1 4]%Z 2 = false /\
+  lib_verify_input (sv 1%Z) false keys [c_mk 1 0; c_mk 1 2; c_mk 0 4]%Z 2 = true /\
+  lib_verify_input (sv 0%Z) false keys [c_mk 0 0; c_mk 0 2; c_mk 1 4]%Z 2 = true.
+Proof.
+  split.
+  - intros [[p e] v] Hs e' k Hne _. simpl in Hs. apply Z.eqb_eq in Hs. subst e.
+    unfold c_sv. destruct (Z.eqb 0 e') eqn:E; [apply Z.eqb_eq in E; congruence|].
+    rewrite andb_false_r. reflexivity.
+  - vm_compute. repeat split.
+Qed.
+
 Print Assumptions verify_sound.
 Print Assumptions verify_sound_positions.
 Print Assumptions verify_insufficient.
@@ -151,3 +442,17 @@ Print Assumptions run_decides_as_model.
 Print Assumptions tx_run_decides_as_model.
 Print Assumptions sign_fresh_in_order.
 Print Assumptions sign_fresh_then_verify.
+Print Assumptions sign_then_verify.
+Print Assumptions sign_history_exact.
+Print Assumptions sign_history_then_verify.
+Print Assumptions sign_history_then_verify_m.
+Print Assumptions tamper_changes_preimage.
+Print Assumptions tamper_changes_digest.
+Print Assumptions stale_signatures_fail.
+Print Assumptions tx_input_fails.
+Print Assumptions tamper_detected.
+Print Assumptions tamper_detected_tx.
+Print Assumptions tx_history_exact.
+Print Assumptions tx_history_then_verify.
+Print Assumptions machine_sign_is_tcall.
+Print Assumptions machine_verify_is_tcall.
